@@ -604,18 +604,40 @@ func policyMatches(p *model.AuthorizationPolicy, r *request) bool {
 	return false
 }
 
-// applies: the policy is in the root namespace or the workload's namespace and its selector
-// (if any) is a subset of the workload labels.
+// applies (sidecars and gateways, no waypoints): the policy lives in the root namespace or the workload's
+// namespace and
+//   - workload without the gateway.networking.k8s.io/gateway-name label: no targetRefs, and the selector (if
+//     any) is a subset of the workload labels;
+//   - workload WITH that label (a Gateway API gateway): without targetRefs the selector decides; with targetRefs
+//     some reference must name this Gateway (group gateway.networking.k8s.io, kind Gateway, same namespace).
 func (s *sut) applies(p *model.AuthorizationPolicy) bool {
 	if p.Namespace != s.rootNS && p.Namespace != s.wlNS {
 		return false
 	}
+	selected := true
 	for k, v := range p.Spec.GetSelector().GetMatchLabels() {
 		if w, ok := s.wlLabels[k]; !ok || w != v {
-			return false
+			selected = false
 		}
 	}
-	return true
+	refs := p.Spec.GetTargetRefs()
+	if len(refs) == 0 && p.Spec.GetTargetRef() != nil {
+		refs = append(refs, p.Spec.GetTargetRef())
+	}
+	gw, isGW := s.wlLabels["gateway.networking.k8s.io/gateway-name"]
+	if !isGW {
+		return len(refs) == 0 && selected
+	}
+	if len(refs) == 0 {
+		return selected
+	}
+	for _, ref := range refs {
+		if p.Namespace == s.wlNS && (ref.GetNamespace() == "" || ref.GetNamespace() == s.wlNS) &&
+			ref.GetGroup() == "gateway.networking.k8s.io" && ref.GetKind() == "Gateway" && ref.GetName() == gw {
+			return true
+		}
+	}
+	return false
 }
 
 // customDenies: a CUSTOM policy delegates to its extension provider (taken to allow here). It is
@@ -686,62 +708,6 @@ func specDecision(s *sut, r *request) bool {
 		}
 	}
 	return !allowExists || allowMatch
-}
-
-// untranslatable: some applying policy carries a `when` key of a map-style attribute whose bracket
-// syntax cannot be read (validation accepts e.g. "request.headers.more[x]"): the statement then only
-// demands "never more permissive".
-func (s *sut) untranslatable() bool {
-	for i := range s.policies {
-		for _, rule := range s.policies[i].Spec.Rules {
-			for _, c := range rule.GetWhen() {
-				switch attrOfKey(c.Key) {
-				case aHeader:
-					if _, ok := bracketName(strings.TrimPrefix(c.Key, "request.headers")); !ok {
-						return true
-					}
-				case aClaim:
-					if _, ok := nestedNames(strings.TrimPrefix(c.Key, "request.auth.claims")); !ok {
-						return true
-					}
-				case aEnvoyFilter:
-					if _, _, ok := strings.Cut(strings.TrimSuffix(strings.TrimPrefix(c.Key, "experimental."), "]"), "["); !ok {
-						return true
-					}
-				case aUnknown:
-					return true
-				}
-			}
-		}
-	}
-	return false
-}
-
-// usesHTTPOnly: some policy carries a field that cannot be expressed on a TCP filter chain (hosts,
-// methods, paths, request headers, JWT attributes).
-func (s *sut) usesHTTPOnly() bool {
-	for i := range s.policies {
-		for _, rule := range s.policies[i].Spec.Rules {
-			for _, f := range rule.GetFrom() {
-				if src := f.GetSource(); src != nil && len(src.RequestPrincipals)+len(src.NotRequestPrincipals) > 0 {
-					return true
-				}
-			}
-			for _, t := range rule.GetTo() {
-				if o := t.GetOperation(); o != nil &&
-					len(o.Hosts)+len(o.NotHosts)+len(o.Methods)+len(o.NotMethods)+len(o.Paths)+len(o.NotPaths) > 0 {
-					return true
-				}
-			}
-			for _, c := range rule.GetWhen() {
-				switch attrOfKey(c.Key) {
-				case aHeader, aReqPrincipal, aAudiences, aPresenter, aClaim:
-					return true
-				}
-			}
-		}
-	}
-	return false
 }
 
 // templateSegments: path templates segment by segment: `*` = one non-empty segment, `**` = one or more
